@@ -48,11 +48,16 @@ def r1_cut_check(ck, F):
     if not data or not ins:
         return
     site, op, w = data[0]
+    ed = bool_edges(b, value_site=site)
+    fl = [s for s, c, t in calls(b, A("write_block")) if is_self_field(b.arg_exprs(s)[1], "block_writer")]
+    NEG = {"<": ">=", "<=": ">", ">": "<=", ">=": "<", "==": "!=", "!=": "=="}
+    if ed is not None and len(fl) == 1 and b.dominates(ed[2], fl[0].bb) and not b.dominates(ed[1], fl[0].bb):
+        # written as `if estimate < block_size { return }`: the flush sits on the false edge
+        op = NEG[op]
+        ed = (ed[0], ed[2], ed[1])
     ck.ob(R, "cut-relation", op == ">=", f"data block is cut when `estimate {op} block_size` (must be >=: a block that reaches B exactly is emitted)", b, site)
     rets = [Site(r, None) for r in b.return_blocks()]
     ck.ob(R, "checked-after-every-insert", b.dominates(ins[0], site) and all(b.dominates(site, r) for r in rets), "the test is made after the entry was appended and on every path to a return", b, site)
-    ed = bool_edges(b, value_site=site)
-    fl = [s for s, c, t in calls(b, A("write_block")) if is_self_field(b.arg_exprs(s)[1], "block_writer")]
     ok = ed is not None and len(fl) == 1 and b.dominates(ed[1], fl[0].bb) and not b.dominates(ed[2], fl[0].bb)
     ck.ob(R, "true-edge-flushes-same-writer", ok, "the `reached` edge leads to compress_and_write_block(self.block_writer)", b, site)
     # between the test and the flush only: last_key() is Some, a parent exists
@@ -74,10 +79,14 @@ def r2_level_check(ck, F):
         return
     site, op, w = tests[0]
     sp = split_part(w)
-    ck.ob(R, "level-cut-relation", op == ">=", f"index level is cut when `estimate {op} block_size`", b, site)
-    ck.ob(R, "level-test-in-loop-on-last", b.in_loop(site.bb) and sp is not None and sp[1] == 0, "the test is applied inside the level loop to the last writer of the remaining slice", b, site)
     ed = bool_edges(b, value_site=site)
     fl = [s for s, c, t in calls(b, A("write_block")) if not is_self_field(b.arg_exprs(s)[1], "block_writer")]
+    NEG = {"<": ">=", "<=": ">", ">": "<=", ">=": "<", "==": "!=", "!=": "=="}
+    if ed is not None and len(fl) == 1 and b.dominates(ed[2], fl[0].bb) and not b.dominates(ed[1], fl[0].bb):
+        op = NEG[op]
+        ed = (ed[0], ed[2], ed[1])
+    ck.ob(R, "level-cut-relation", op == ">=", f"index level is cut when `estimate {op} block_size`", b, site)
+    ck.ob(R, "level-test-in-loop-on-last", b.in_loop(site.bb) and sp is not None and sp[1] == 0, "the test is applied inside the level loop to the last writer of the remaining slice", b, site)
     ok = ed is not None and len(fl) == 1 and b.dominates(ed[1], fl[0].bb) and not b.dominates(ed[2], fl[0].bb)
     if ok:
         fsp = split_part(b.arg_exprs(fl[0])[1])
@@ -105,7 +114,10 @@ def r2_level_check(ck, F):
     data = [t for t in size_tests(b) if is_self_field(t[2], "block_writer")]
     if data and sl:
         ed = bool_edges(b, value_site=data[0][0])
-        ck.ob(R, "levels-checked-after-data-cut", ed is not None and b.dominates(ed[1], sl[0][0].bb), "index levels are examined on the path where the data block reached the threshold", b, sl[0][0])
+        reached = None
+        if ed is not None:
+            reached = ed[1] if data[0][1] in (">=", ">") else ed[2]
+        ck.ob(R, "levels-checked-after-data-cut", reached is not None and b.dominates(reached, sl[0][0].bb), "index levels are examined on the path where the data block reached the threshold", b, sl[0][0])
 
 
 def r3_clamp(ck, F):
